@@ -10,7 +10,8 @@ import types
 
 from mc.core import time_limit, CaseTimeout
 
-HELPERS = ('obs', 'cm', 'deco', 'base', 'meta', 'run', 'ident')
+DECOY = False      # set by the scope-tree checks for programs that read the injected global B
+HELPERS = ('obs', 'cm', 'deco', 'base', 'meta', 'run', 'ident', 'B')
 
 
 def describe(v, depth=0, call=True):
@@ -94,7 +95,12 @@ def make_namespace(stream):
 
     def ident(f):
         return f
-    return {'__name__': 'observed', 'obs': obs, 'cm': _CM, 'deco': deco, 'base': base, 'meta': meta, 'run': _run, 'ident': ident}
+    ns = {'__name__': 'observed', 'obs': obs, 'cm': _CM, 'deco': deco, 'base': base, 'meta': meta, 'run': _run, 'ident': ident}
+    if DECOY:
+        # 'B' is a name the generated decoy programs read but never bind: a global provided from outside the module.  Only programs that
+        # mention it get it (a module that never mentions B may of course name one of its own globals B under rename_globals).
+        ns['B'] = 'injected-B'
+    return ns
 
 
 def namespace_view(ns, private=False):
